@@ -119,6 +119,23 @@ def build_grid(ctx, rnd):
     add({2: Fraction(-45), 5: Fraction(-45)}, "10^-45")
     add({2: Fraction(-46), 5: Fraction(-46)}, "10^-46")
     add({2: Fraction(-324), 5: Fraction(-324)}, "10^-324")
+    # the primes next to 2^64 and 2^63 on their own: Prime<P> is only well-formed if the library's
+    # own primality test agrees, and above 2^63 that test runs its modular helpers near wrap-around
+    # (which branch of the strong-Lucas half is taken differs from prime to prime)
+    def prev_prime0(n):
+        while not model.is_prime(n):
+            n -= 1
+        return n
+    q = 2 ** 64 - 1
+    for _ in range(16 if ctx.thorough else 10):
+        q = prev_prime0(q - 1)
+        add({q: Fraction(1)}, "prime just below 2^64")
+    q = 2 ** 63
+    for _ in range(6 if ctx.thorough else 3):
+        q += 1
+        while not model.is_prime(q):
+            q += 1
+        add({q: Fraction(1)}, "prime just above 2^63")
     # two large primes that are close together in ONE magnitude: the ordering of bases must tell
     # them apart exactly (they coincide after rounding to double, or to float)
     def next_prime(n):
